@@ -57,6 +57,7 @@ EXC_OWNERS = {
     "add_rule": ("C06", "C12"),
     "remove_rule": ("C06",),
     "reopen": ("C11",),
+    "reopen_older_release": ("C11", "C12"),
     "reopen_overwrite": ("C11",),
     "clear": ("C11",),
 }
@@ -164,6 +165,9 @@ def compare_outcome(ctx, op, observed, expected, note):
         if note is not None:
             if "id " in note and "issued" in note:
                 ctx.fail("rule_install_ids", "%s (op %s)" % (note, short(op)), OP_OWNERS["rule_install_ids"])
+            if "reported new pages" in note:
+                # a rule installation re-inserts known pages: its report may count none as new
+                ctx.fail("report_pages", "%s: %s (op %s)" % (note, short(observed), short(op)), ("C01", "C06"))
             ctx.fail("rule_install", "%s; observed %s (op %s)" % (note, short(observed), short(op)), OP_OWNERS["rule_install"])
         return
     if observed == expected:
